@@ -136,7 +136,15 @@ Exec(m0, s, mi, i, devs) ==
          ELSE [m EXCEPT !.cells = Append(@, Cell(K(mi, i))),
                         !.frames[top].vars = Append(@, <<s.n, Len(m.cells) + 1>>)]
     [] s.k \in {"read", "uread", "arg", "uarg"} -> ReadCell(m, c)
-    [] s.k \in {"write", "cwrite"} -> WriteCell(m, c, K(mi, i) + 5)
+    [] s.k = "write" -> WriteCell(m, c, K(mi, i) + 5)
+    [] s.k = "cwrite" ->
+         LET cc == UninitAnywhere(m, s.n)             \* what the checker believes is assigned
+             cr == Walk(m.frames, top, s.n, TRUE) IN  \* what the compiled code assigns: plain lexical scoping
+         IF "uninit_local_leaks_into_conditional" \in devs /\ cc # 0 /\ cc # cr
+         THEN [m EXCEPT !.cells[cr] = Cell(K(mi, i) + 5),       \* DEVIATION (second half): the expansion has its
+                        !.cells[cc] = [init |-> TRUE, v |-> 0], \* own local of that name: it is written, while the
+                        !.fuzzy = TRUE]                         \* caller's variable only COUNTS as initialised
+         ELSE WriteCell(m, c, K(mi, i) + 5)
     [] s.k = "uwrite_e" -> IF c = 0 THEN Reject(m) ELSE Emit(WriteCell(m, c, K(mi, i) + 5), K(mi, i) + 5)
     [] s.k = "uwrite_s" -> IF "unhygienic_statement_stack_imbalance" \in devs /\ c # 0
                            THEN [WriteCell(m, c, K(mi, i) + 5) EXCEPT   \* DEVIATION: the compiled splice leaves no
@@ -153,7 +161,7 @@ SiteMachine(site) ==
       cy == IF site.y = "local" THEN <<Cell(2)>> ELSE <<>>
       fn == Frame("fn", xs \o ys)
   IN [frames  |-> IF site.x = "inclosure" THEN <<fn, Frame("closure", <<>>)>> ELSE <<fn>>,
-      cells   |-> cx \o cy, out |-> <<>>, verdict |-> "ok", corrupt |-> FALSE, fired |-> {}, res |-> <<>>]
+      cells   |-> cx \o cy, out |-> <<>>, verdict |-> "ok", corrupt |-> FALSE, fuzzy |-> FALSE, fired |-> {}, res |-> <<>>]
 
 PushBoundary(m) == [m EXCEPT !.frames = Append(@, Frame("boundary", <<>>))]
 PopBoundary(m)  == [m EXCEPT !.frames = SubSeq(@, 1, Len(@) - 1)]
@@ -200,7 +208,7 @@ LeaveExpansion ==                \* popLocalEnv; next call or the rest of the ca
                              ELSE /\ pc' = "epilogue" /\ UNCHANGED <<mi, si>>
   /\ UNCHANGED prog
 
-Obs(m) == [verdict |-> m.verdict, out |-> IF m.verdict = "ok" THEN m.out ELSE <<>>, corrupt |-> m.corrupt,
+Obs(m) == [verdict |-> m.verdict, out |-> IF m.verdict = "ok" THEN m.out ELSE <<>>, corrupt |-> m.corrupt, fuzzy |-> m.fuzzy,
            fired |-> m.fired, res |-> m.res]
 
 StmtsOf(calls) == [c \in 1..Len(calls) |-> [j \in 1..Len(calls[c]) |-> Alphabet[calls[c][j]]]]
